@@ -327,4 +327,11 @@ def r4_pure_shift(ctx):
         ctx.check(ok, q + "#placement-args", "position = (y, x), shape = (rows, cols), align forwarded" if ok else "model passes position/shape/alignment in the wrong slots", where=m, node=cs[0] if cs else m.node)
 
 
-RULES = [r1_no_stale_cache, r2_tables_agree, r3_alignment_exhaustive, r4_pure_shift]
+def r5_cached_image_never_modified(ctx):
+    """"What a model loads reflects the file's content": the memoised image array is shared by every later load of the same file, so no consumer may modify it in place (shared with C17.R4)."""
+    from props.C17 import r4_no_inplace_on_memoised
+
+    r4_no_inplace_on_memoised(ctx)
+
+
+RULES = [r5_cached_image_never_modified, r1_no_stale_cache, r2_tables_agree, r3_alignment_exhaustive, r4_pure_shift]
